@@ -45,6 +45,13 @@ def _block(stmts, env, hooks):
             v = _eval(s.value, env, hooks)
             for t in s.targets:
                 _bind(t, v, env)
+        elif isinstance(s, ast.AugAssign) and isinstance(s.op, ast.Add) and isinstance(s.target, ast.Name):
+            cur = env.get(s.target.id)
+            v = _eval(s.value, env, hooks)
+            if isinstance(cur, list) and isinstance(v, list):
+                env[s.target.id] = cur + v
+            else:
+                raise AnalysisError("absint: unsupported += on %r" % (cur,))
         elif isinstance(s, ast.If):
             c = _eval(s.test, env, hooks)
             _block(s.body if _truth(c, s.test) else s.orelse, env, hooks)
